@@ -46,7 +46,14 @@ theorem run_ok_counts : ∀ (toks : List Tok) (st : List Frame) (cur : List Item
       · cases h
   | .field loc :: r, st, cur, h, k => by
     simp only [run] at h
-    simpa [countStart, countStop] using run_ok_counts r _ _ h k
+    cases st with
+    | nil => simp at h
+    | cons f st =>
+      simp only at h
+      split at h
+      · have := run_ok_counts r _ _ h k
+        simpa [countStart, countStop] using this
+      · cases h
   | .plain loc :: r, st, cur, h, k => by
     simp only [run] at h
     simpa [countStart, countStop] using run_ok_counts r _ _ h k
@@ -163,14 +170,20 @@ theorem run_error_located : ∀ (toks : List Tok) (st : List Frame) (cur : List 
       · cases h; left; simp [Err.loc, Tok.loc]
   | .field loc :: r, st, cur, e, h => by
     simp only [run] at h
-    rcases run_error_located r _ _ e h with h1 | h1 | h1 | h1
-    · left; simp [h1]
-    · right; left; exact h1
-    · simp only [List.map_append, List.mem_append, List.map_cons, List.map_nil, List.mem_singleton, itemLoc] at h1
-      rcases h1 with h1 | h1
-      · right; right; left; exact h1
-      · left; simp [Tok.loc, h1]
-    · right; right; right; exact h1
+    cases st with
+    | nil => simp only at h; cases h; left; simp [Err.loc, Tok.loc]
+    | cons f st =>
+      simp only at h
+      split at h
+      · rcases run_error_located r _ _ e h with h1 | h1 | h1 | h1
+        · left; simp [h1]
+        · right; left; exact h1
+        · simp only [List.map_append, List.mem_append, List.map_cons, List.map_nil, List.mem_singleton, itemLoc] at h1
+          rcases h1 with h1 | h1
+          · right; right; left; exact h1
+          · left; simp [Tok.loc, h1]
+        · right; right; right; exact h1
+      · cases h; left; simp [Err.loc, Tok.loc]
   | .plain loc :: r, st, cur, e, h => by
     simp only [run] at h
     rcases run_error_located r _ _ e h with h1 | h1 | h1 | h1
@@ -231,6 +244,8 @@ example : assemble [.start 5 1, .start 7 2, .stop 5 3, .stop 7 4] = .error (.exp
 example : assemble [.plain 1, .mid 0 2] = .error (.midWithout 0 2) := by rfl
 example : assemble [.start 0 1, .mid 0 2, .mid 1 3, .stop 0 4] = .error (.elseAfterElse 3) := by rfl
 example : assemble [.start 4 1, .start 5 2, .plain 3] = .error (.notClosed 5 2) := by rfl
+example : assemble [.start 3 1, .field 2, .stop 3 3, .field 4] = .error (.fieldOutside 4) := by rfl
+example : assemble [.start 3 1, .start 5 2, .field 3, .stop 5 4, .stop 3 5] = .error (.fieldOutside 3) := by rfl
 
 end Qbee.Blocks
 
